@@ -211,16 +211,19 @@ def lower (c : Char) : Char := if 65 ≤ c.toNat && c.toNat ≤ 90 then Char.ofN
 def stripBy (p : Char → Bool) (s : List Char) : List Char :=
   ((s.dropWhile p).reverse.dropWhile p).reverse
 
+/-- an optional sign: is it `-`, and the rest -/
+def splitSign : List Char → Bool × List Char
+  | '-' :: t => (true, t)
+  | '+' :: t => (false, t)
+  | t => (false, t)
+
 /-- optional exponent, then the end of the text -/
 def floatExp (m : Rat) (s : List Char) : Option Rat :=
   match s with
   | [] => some m
   | e :: r =>
     if isE e then
-      let (neg, r') := match r with
-        | '-' :: t => (true, t)
-        | '+' :: t => (false, t)
-        | t => (false, t)
+      let (neg, r') := splitSign r
       match digitPart r' with
       | some (ds, []) => some (scale m neg (digitsNat ds))
       | _ => none
@@ -245,10 +248,7 @@ def floatBody (s : List Char) : Option Rat :=
 /-- `float(text)`: `none` = `ValueError` -/
 def pyFloat (s : List Char) : Option Val :=
   let t := stripBy isFloatSpace s
-  let (neg, u) := match t with
-    | '-' :: r => (true, r)
-    | '+' :: r => (false, r)
-    | r => (false, r)
+  let (neg, u) := splitSign t
   let lu := u.map lower
   if lu = "inf".toList || lu = "infinity".toList then some (.inf neg)
   else if lu = "nan".toList then some .nan
